@@ -294,7 +294,8 @@ def program(draw):
         steps.append(["join", [["src", gk], ["enum", "JoinType", "inner"]], {}, ["on", [["eq", b.f(fk, "on"), b.f(gk, "on")]]]])
         steps.append(["select", [b.f(fk, "select"), b.f(gk, "select")]])
         steps.append(["on_conflict", [b.f(tk, "conflict_target")]])
-        steps.append(["do_update", [b.f(tk, "conflict_set_target"), ["raw", 1]]])
+        # MySQL's ON DUPLICATE KEY UPDATE may take the new value from a source of the SELECT: that reference needs its source's name
+        steps.append(["do_update", [b.f(tk, "conflict_set_target"), b.f(gk, "conflict_value_source") if cls == "mysql" else ["raw", 1]]])
         if draw(st.booleans()):
             b.n += 1
             nm = "f%d" % b.n
